@@ -103,10 +103,12 @@ Theorem declared_sites_sound :
   sites_ok stream_declared (json_incr ++ line_incr ++ [fixed_incr; autosep_incr; cz_incr_inner]) = true /\
   sites_ok bstream_declared (line_buf ++ [fixed_buf; autosep_buf; cz_incr_inner]) = true /\
   forallb (fun k => memZ k stream_declared && memZ k bstream_declared) [fb_incr_raised; cz_incr_raised] = true /\
-  (* the handler around self.deserialize(data) of the base classes catches the whole DeserializeError family *)
-  forallb (fun k => forallb (fun t => existsb (fun h => memZ k (fst h)) t) [fixed_incr; fixed_buf; autosep_incr; autosep_buf; cz_incr_inner; dgram_protocol])
-          deserialize_codes = true /\
-  forallb (fun h => Z.eqb (snd h) c_DatagramProtocolParseError) dgram_protocol = true.
+  (* the handler around self.deserialize(data) of the base classes turns the whole DeserializeError family into a class
+     the stream protocol converts (stated on the effect of the try statement, so that it reads the same on a table
+     obtained from the AST and on one obtained by probing the real method) *)
+  forallb (fun k => forallb (fun t => memZ (through_try t k) stream_declared) [fixed_incr; autosep_incr; cz_incr_inner]) deserialize_codes = true /\
+  forallb (fun k => forallb (fun t => memZ (through_try t k) bstream_declared) [fixed_buf; autosep_buf; cz_incr_inner]) deserialize_codes = true /\
+  forallb (fun k => Z.eqb (through_try dgram_protocol k) c_DatagramProtocolParseError) deserialize_codes = true.
 Proof. exact declared_sites_sound_pf. Qed.
 Print Assumptions declared_sites_sound.
 
